@@ -48,6 +48,10 @@ type Prop struct {
 	Serial bool
 	// NoShrink disables token-deletion shrinking.
 	NoShrink bool
+	// Isolate: run every case in a subprocess of its own (cases that can bring the process down
+	// with an unrecoverable runtime error, e.g. "concurrent map read and map write"); the answer of
+	// a dead subprocess is `crash`.
+	Isolate bool
 	Assumptions []string
 }
 
@@ -91,7 +95,38 @@ type replay struct {
 	HowToReplay  string   `json:"how_to_replay"`
 }
 
+func isolatedImpl(p *Prop, line string) string {
+	timeout := p.Timeout
+	if timeout == 0 {
+		timeout = 20 * time.Second
+	}
+	cmd := exec.Command(os.Args[0], "-prop", p.ID, "-case", line)
+	var stdout, stderr strings.Builder
+	cmd.Stdout = &stdout
+	cmd.Stderr = &stderr
+	if err := cmd.Start(); err != nil {
+		return "crash"
+	}
+	done := make(chan error, 1)
+	go func() { done <- cmd.Wait() }()
+	select {
+	case err := <-done:
+		if err != nil {
+			first := strings.SplitN(strings.TrimSpace(stderr.String()), "\n", 2)[0]
+			panicLog(line, "subprocess died: "+first)
+			return "crash"
+		}
+		return strings.TrimSpace(stdout.String())
+	case <-time.After(timeout + 5*time.Second):
+		cmd.Process.Kill()
+		return "timeout"
+	}
+}
+
 func safeImpl(p *Prop, line string) (out string) {
+	if p.Isolate && os.Getenv("VERIF_CHILD") == "" {
+		return isolatedImpl(p, line)
+	}
 	timeout := p.Timeout
 	if timeout == 0 {
 		timeout = 20 * time.Second
